@@ -31,6 +31,7 @@ func checkC06(c *Ctx) (string, error) {
 	checkTypehash(c, rp)
 
 	checkMaskHalving(c, rp)
+	checkMapPort(c, rp)
 
 	w, err := loadMain(defaultCfg, "ssa", "ssa/abi", "cl")
 	if err != nil {
@@ -45,7 +46,7 @@ func checkC06(c *Ctx) (string, error) {
 	checkLookupCommaOk(c, sp)
 	checkMapSlotStride(c, "R06.5", sp)
 	checkMapThresholds(c, ap)
-	return "C06 (structural): nil-map guards dominate every use of the map header in the read-side entry points (CFG, all paths) and mapassign panics on nil; typehash covers every non-raw-memory kind and panics otherwise; the key-property predicates (reflexive, need-key-update, hash-might-panic, has-pointers) have the right base cases and the right any/all quantifier over struct fields and array elements; map flag bits, MapType descriptor layout, bucket constants and the indirect-storage threshold agree across MapBucketType, MapTypeFlags, the descriptor writer and the runtime; emitter call arity. NOT decided: everything about operation histories (lookup after insert/delete, growth, iteration during growth) - that needs execution or a model, not source shape.", nil
+	return "C06 (structural): nil-map guards dominate every use of the map header in the read-side entry points (CFG, all paths) and mapassign panics on nil; typehash covers every non-raw-memory kind and panics otherwise; the key-property predicates (reflexive, need-key-update, hash-might-panic, has-pointers) have the right base cases and the right any/all quantifier over struct fields and array elements; map flag bits, MapType descriptor layout, bucket constants and the indirect-storage threshold agree across MapBucketType, MapTypeFlags, the descriptor writer and the runtime; emitter call arity; helpers of the map code are implemented (no empty stubs); the write protocol of mapassign/mapdelete/mapclear on all paths (flag set after hashing, cleared before return, growWork before bucket selection, count updated with the slot, emptyRest marked only after consulting the next chain position); the direct/indirect data-word dispatch of both interface hash functions. NOT decided: everything about operation histories (lookup after insert/delete, growth, iteration during growth) - that needs execution or a model, not source shape.", nil
 }
 
 func checkMapAssignNilAs(c *Ctx, rule string, rp *packages.Package) {
